@@ -57,7 +57,11 @@ RULE = ("every seeded wrapper class x {seed 0, seed 1} x {fused, unfused access 
         "wrappers on PIL data, KDMixWrapper, SemsegTransformWrapper; a second seeded layer and subset / shuffle / repeat "
         "/ label-smoothing wrappers above and below, in-place consumers and multi-view wrappers above (unfused path "
         "of the mix wrapper), base seed 0 in ~15% of the layers; two instances, two global states, two access orders "
-        "with repeats and with the same index 1-3 times in a row; in 60% of the cases the harness overwrites every "
+        "with repeats and with the same index 1-3 times in a row; afterwards the same object is asked for the same indices "
+        "through every other access mode (each item alone = unfused accessors, the items fused / in reverse order, for "
+        "semseg stacks x / semseg / 'x semseg' / 'index semseg', for mix stacks x / class / 'x class') and every item must "
+        "be bit-identical across modes; semseg pipelines put stochastic image-only transforms before, between and after "
+        "random geometry transforms; in 60% of the cases the harness overwrites every "
         "tensor it was handed in place after each request (returned objects must not alias wrapper state); "
         "thorough: DataLoader(num_workers 0..3) with explicit sampler orders (runs of equal indices), samples "
         "canonicalised and overwritten inside the worker's collate_fn; one (quick) / two (thorough, ~140 stacks each) "
@@ -266,6 +270,24 @@ def with_runs(rng, h):
     return out
 
 
+def alt_modes(spec):
+    """other ways to ask the SAME stack for the same items: every item of the mode on its own (unfused accessors), the
+    items together (fused accessors), and for semseg / mix stacks the companion items {x, semseg} / {x, class} alone
+    and fused - the value of an item for index i must not depend on what else is requested with it"""
+    items = [m for m in spec["mode"].split(" ") if m != "index"]
+    names = [l["w"] for l in spec["layers"]]
+    cand = list(items) + [" ".join(items), " ".join(reversed(items))]
+    if "SemsegTransformWrapper" in names:
+        cand += ["x", "semseg", "x semseg", "semseg x", "index semseg"]
+    if "KDMixWrapper" in names:
+        cand += ["x", "class", "x class", "class x"]
+    out = []
+    for m in cand:
+        if m and m != spec["mode"] and m not in out:
+            out.append(m)
+    return out
+
+
 def mk_case(rng, spec, mut=None):
     n = K.stack_len(spec)
     base = [rng.randrange(n) for _ in range(rng.choice([2, 3, 4]))]
@@ -275,7 +297,7 @@ def mk_case(rng, spec, mut=None):
     rng.shuffle(hb)
     # mut: after every request the harness overwrites the tensors it was handed IN PLACE (an in-place collate /
     # training step); the next request must be unaffected
-    return {"kind": "stack", "spec": spec, "ha": with_runs(rng, ha), "hb": with_runs(rng, hb),
+    return {"kind": "stack", "spec": spec, "ha": with_runs(rng, ha), "hb": with_runs(rng, hb), "alt": alt_modes(spec),
             "ga": rng.randrange(10 ** 6), "gb": rng.randrange(10 ** 6),
             "mut": (rng.random() < 0.6) if mut is None else mut}
 
@@ -334,7 +356,10 @@ def seeded_layer(rng, w, seed):
     if w == "KDMixWrapper":
         return "img", {"w": w, "p": 1.0, "alpha": 0.8, "seed": seed}, ["x class", "x", "class", "class x"]
     if w == "SemsegTransformWrapper":
-        return "img", {"w": w, "ts": [{"c": "KDSemsegRandomHorizontalFlip", "a": 0}, {"c": "KDSemsegRandomCrop", "a": 0},
+        # a stochastic IMAGE-ONLY transform before the random geometry transforms (all share the per-sample generator,
+        # consumed in list order) and one after them
+        return "img", {"w": w, "ts": [{"c": "KDRandomColorJitter", "a": 0}, {"c": "KDSemsegRandomHorizontalFlip", "a": 0},
+                                      {"c": "KDAdditiveGaussianNoise", "a": 0}, {"c": "KDSemsegRandomCrop", "a": 0},
                                       {"c": "KDAdditiveGaussianNoise", "a": 0}], "seed": seed}, ["x semseg", "x", "semseg"]
     return "pil", {"w": w, "seed": seed, "n": 2, "nloc": 2}, ["x"]
 
@@ -448,6 +473,9 @@ def shrink(case):
                 yield {**case, "spec": {**spec, "layers": layers[:i] + [{**l, "ts": l["ts"][:j] + l["ts"][j + 1:]}] + layers[i + 1:]}}
     if case.get("mut"):
         yield {**case, "mut": False}
+    if len(case.get("alt") or []) > 1:
+        for m in case["alt"]:
+            yield {**case, "alt": [m]}
     if len(case["ha"]) > 1:
         yield {**case, "ha": case["ha"][:-1]}
         yield {**case, "ha": case["ha"][1:]}
@@ -532,6 +560,21 @@ def run_stack_case(case):
         obs["out_b"] = [[i, _get(B, i, case.get("mut"))] for i in case["hb"]]
         obs["touched_b"] = trip.touched()
         obs["frames_b"] = len(FR.log) - n_log
+        # the same object asked for the same indices through other access modes (unfused / fused / other item sets)
+        obs["alt"] = []
+        if case.get("alt"):
+            from kappadata.wrappers import ModeWrapper
+            idxs = []
+            for i in case["hb"]:
+                if i not in idxs:
+                    idxs.append(i)
+            for m in case["alt"]:
+                try:
+                    mw = ModeWrapper(B.dataset, mode=m)
+                except Exception:  # noqa  (an item this stack does not serve)
+                    continue
+                for i in idxs[:3]:
+                    obs["alt"].append([m, i, _get(mw, i, case.get("mut"))])
     return obs
 
 
@@ -714,6 +757,24 @@ def oracle(case, obs):
                         + (", the harness overwrote every tensor it was handed in place after each request: a returned "
                            "tensor aliases state that outlives the request" if case.get("mut") else "") + ")")
             seen.setdefault(i, (v, f"{who} request #{pos}"))
+    # item by item: what index i holds for an item does not depend on HOW it is requested (alone / fused / with others)
+    def per_item(mode, v):
+        items = mode.split(" ")
+        if isinstance(v, list) and v and v[0] == "EXC":
+            return {}
+        vals = [v] if len(items) == 1 else v
+        return dict(zip(items, vals)) if len(vals) == len(items) else {}
+
+    item_seen = {}
+    for i, v in obs["out_b"]:
+        for it, val in per_item(case["spec"]["mode"], v).items():
+            item_seen.setdefault((it, i), (val, case["spec"]["mode"]))
+    for m, i, v in obs.get("alt", []):
+        for it, val in per_item(m, v).items():
+            if (it, i) in item_seen and item_seen[(it, i)][0] != val:
+                return (f"{sig}: item '{it}' of sample {i} depends on the access mode: mode '{item_seen[(it, i)][1]}' gave "
+                        f"{str(item_seen[(it, i)][0])[:200]}, mode '{m}' on the same object gave {str(val)[:200]}")
+            item_seen.setdefault((it, i), (val, m))
     return None
 
 
@@ -760,6 +821,8 @@ def features(case, obs):
         yield "repeats=%s" % (len(set(case["ha"])) < len(case["ha"]))
         yield "same_index_in_a_row=%s" % any(a == b for h in (case["ha"], case["hb"]) for a, b in zip(h, h[1:]))
         yield "overwritten_in_place=%s" % bool(case.get("mut"))
+        for m in sorted({a[0] for a in obs.get("alt", []) if not (isinstance(a[2], list) and a[2] and a[2][0] == "EXC")}):
+            yield "alt_mode=" + m
         yield "seed0=%s" % any(l["seed"] == 0 for l in obs["layers"])
         names = [l["w"] for l in spec["layers"]]
         for k, l in enumerate(spec["layers"]):
